@@ -131,7 +131,9 @@ class Engine(ExprMixin, StmtMixin, CallMixin):
     def oblige(self, kind, name, goal, clause=None, node=None):
         if isinstance(goal, bool):
             goal = z3.BoolVal(goal)
-        g = z3.simplify(goal)
+        g = goal
+        if z3.is_true(z3.simplify(goal)):
+            g = z3.BoolVal(True)
         top = self.frames[0]
         if len(self.frames) > 1:
             name = '%s/%s' % (self.frames[-1].fname, name)
